@@ -111,8 +111,47 @@ pub fn family(prop: &str, thorough: bool) -> (Vec<Grammar>, Vec<String>) {
         v.extend(family_of(f, thorough));
         names.push(describe(f, thorough).to_string());
     }
+    if prop == "C11" {
+        v.extend(names_family());
+        names.push("NAMES: 17 identifier-stressing names as rule, part, rename and creation names, all pairs of them".to_string());
+    }
     let mut seen = std::collections::HashSet::new();
     v.retain(|g| seen.insert(g.clone()));
     let v = v.into_iter().map(|g| g.with_skip_token()).collect();
     (v, names)
+}
+
+/// NAMES: rule / rename / creation names that stress identifier generation in the emitted code.
+pub fn names_family() -> Vec<Grammar> {
+    use vmodel::Rx;
+    let names = [
+        "foo_bar", "fooBar", "foo__bar", "foo_", "type", "fn", "self", "match", "r2d2", "x_1", "part", "rule", "node", "token", "cst", "parser", "diags",
+    ];
+    let mut out = vec![];
+    for a in names {
+        // as a rule name
+        let mut g = grammar(2, vec![("s", false, Some(cat(vec![tok(0), rf(1)]))), (a, false, Some(tok(1)))]);
+        out.push(g.clone());
+        g.parts = vec![1];
+        out.push(g);
+        // as a rename and as a created node name
+        out.push(grammar(2, vec![("s", false, Some(rf(1))), ("x", false, Some(cat(vec![tok(0), Rx::Rename(a.into()), tok(1)])))]));
+        out.push(grammar(2, vec![("s", false, Some(rf(1))), ("x", false, Some(cat(vec![Rx::Marker(1), tok(0), Rx::Create(Some(1), Some(a.into())), tok(1)])))]));
+        for b in names {
+            if a < b {
+                // two names in one grammar (e.g. foo_bar and fooBar map to the same enum variant)
+                out.push(grammar(
+                    2,
+                    vec![("s", false, Some(cat(vec![rf(1), rf(2)]))), (a, false, Some(tok(0))), (b, false, Some(tok(1)))],
+                ));
+            }
+        }
+    }
+    for r in ["error", "part"] {
+        let mut g = grammar(2, vec![("s", false, Some(rf(1))), ("x", false, Some(cat(vec![tok(0), Rx::Rename(r.into()), tok(1)]))), ("p", false, Some(tok(1)))]);
+        out.push(g.clone());
+        g.parts = vec![2];
+        out.push(g);
+    }
+    out
 }
